@@ -1187,8 +1187,7 @@ func (s *sched) randomRound() []action {
 		switch {
 		case x < 45: // accept
 			if accepts >= maxActiveAccepts {
-				x = 60 // fall through to a close below
-				break
+				break // too many accepts in flight: a close (below) instead
 			}
 			var l int
 			if s.acceptOnClose && len(v.closedLs) > 0 && rng.IntN(4) == 0 {
@@ -1196,8 +1195,7 @@ func (s *sched) randomRound() []action {
 			} else if len(v.openLs) > 0 {
 				l = v.openLs[rng.IntN(len(v.openLs))]
 			} else {
-				x = 60
-				break
+				break // no listener to accept on: a close (below) instead
 			}
 			acts = append(acts, action{Kind: "accept", L: l, PreDial: rng.IntN(4) != 0})
 			accepts++
@@ -1379,7 +1377,7 @@ func (s *sched) cleanup() {
 	}
 	if s.dead {
 		s.nudge()
-		for i := 0; i < 200; i++ {
+		for i := 0; i < 40; i++ {
 			s.m.mu.Lock()
 			n := len(s.m.active)
 			s.m.mu.Unlock()
@@ -1449,7 +1447,7 @@ func runSchedule(r *vkit.Run, idx int, lc *logCounter) {
 	if s.feat.lcloseMid {
 		r.Bucket("limiter_schedules_with_mid_listener_close", 1)
 	}
-	if idx%53 == 7 {
+	if idx%140 == 7 {
 		r.Sample(map[string]any{"monitor": "limiter", "schedule": idx, "stop": s.Stop, "resume": s.Resume, "listeners": s.K,
 			"features": s.feat.String(), "quiescent_points": s.quiescentPts, "abandoned": s.why, "rounds": s.rounds})
 	}
@@ -1927,8 +1925,8 @@ func TestCheck(t *testing.T) {
 	r.Require("limiter_waiters_released_after_resume", int64(r.N(300, 3000)))
 	r.Require("limiter_waiters_released_by_listener_close", int64(r.N(150, 1500)))
 	r.Require("limiter_repeated_close_calls", int64(r.N(300, 3000)))
-	r.Require("limiter_pending_accepts_failed_by_listener_close", 5)
+	r.Require("limiter_pending_accepts_failed_by_listener_close", int64(r.N(40, 400)))
 	r.Require("limiter_concurrent_rounds", int64(r.N(500, 5000)))
-	r.Require("pipeline_cases_limit_reached", int64(r.N(20, 200)))
-	r.Require("pipeline_answers_received", int64(r.N(500, 5000)))
+	r.Require("pipeline_cases_limit_reached", int64(r.N(12, 120)))
+	r.Require("pipeline_answers_received", int64(r.N(250, 2500)))
 }
